@@ -773,8 +773,8 @@ Qed.
 (* initial workers: sub-environment i gets script i at cursor0, no reset_info, attribute 0, env id i, its own "wrapped" flag *)
 Example ex_winitw :
   winitw [[mk_episode 1 2 []]; [mk_episode 3 4 []]] [true]
-  = [mk_wstate ([mk_episode 1 2 []], cursor0) None 0%Z 0%Z true; mk_wstate ([mk_episode 3 4 []], cursor0) None 0%Z 1%Z false] /\
-  winit [[mk_episode 1 2 []]] = [mk_wstate ([mk_episode 1 2 []], cursor0) None 0%Z 0%Z false].
+  = [mk_wstate ([mk_episode 1 2 []], cursor0) None 0%Z 0%Z true false false; mk_wstate ([mk_episode 3 4 []], cursor0) None 0%Z 1%Z false false false] /\
+  winit [[mk_episode 1 2 []]] = [mk_wstate ([mk_episode 1 2 []], cursor0) None 0%Z 0%Z false false false].
 Proof. split; reflexivity. Qed.
 (* the scheduled run of a one-call history completes (nothing of the program is left) and logs the reset reply *)
 Example ex_run_subproc_completes :
